@@ -635,11 +635,11 @@ int main(int argc, char** argv) {
 
     // ---- regime A: deviation-bounded exploration, 3 groups, every labelled forest x every leaf placement
     //      default: all open producers, efficiency 1, METRIC, start 0, one 1 d step, no step-0 evaluation
-    auto regimeA = [&](int budget, bool only_increasing, bool skip_increasing, const char* name) {
+    //      thorough adds the third deviation with a 4-element sequence alphabet (subset of the <= 2-evaluation sequences)
+    const std::vector<std::vector<std::pair<int, int>>> seq4 = {{{0, 0}}, {{1, 0}, {2, 0}}, {{0, 1}, {1, 0}}, {{2, 0}, {0, 0}}};
+    auto regimeA = [&](int budget, const std::vector<std::vector<std::pair<int, int>>>& seqA, int skip_upto, const char* name) {
         const int ng = 3; use_summary_for(ng);
-        std::vector<std::array<int, 4>> tr;
-        for (auto& t : tr3) { bool inc = increasing(t, ng); if ((only_increasing && !inc) || (skip_increasing && inc)) continue; tr.push_back(t); }
-        if (tr.empty()) return;
+        const auto& tr = tr3;
         vf::explore([&](vf::Chooser& ch) {
             Case c; c.ng = ng;
             set_tree(c, tr[ch.pick((int)tr.size())]);
@@ -651,14 +651,15 @@ int main(int argc, char** argv) {
             for (int w = 0; w < 3; ++w) c.we[w] = ch.dev(3);
             for (int g = 0; g < ng; ++g) c.ge[g] = ch.dev(3);
             c.xe = ch.dev(2);
-            c.seq = seq2[ch.dev((int)seq2.size())];
+            c.seq = seqA[ch.dev((int)seqA.size())];
             c.init = ch.dev(2);
             for (int w = 0; w < 3; ++w) c.status[w] = ch.dev(3);
+            if (ch.used <= skip_upto) return;          // already executed by the regime with the smaller budget
             exec(name, c);
         }, budget, stop);
     };
-    if (run.quick()) regimeA(2, false, false, "A_dev2_all_forests");
-    else regimeA(3, false, false, "A_dev3_all_forests");
+    regimeA(2, seq2, -1, "A_dev2");
+    if (run.thorough()) regimeA(3, seq4, 2, "A_dev3");
 
     // ---- regime B: every evaluation sequence (<= 3 evaluations, ministep patterns) x unit system x step-0 evaluation on three rich models
     {
@@ -711,7 +712,7 @@ int main(int argc, char** argv) {
                 exec("C3_efac_product_4groups", c);
             }
         }
-        // ---- C4: 4 groups, increasing forests x leaf placement x 3-valued efficiency factors with <= 3 non-unit entities
+        // ---- C4: 4 groups, increasing forests x leaf placement x 3-valued efficiency factors with <= 2 non-unit entities
         {
             std::vector<std::array<int, 4>> tr; for (auto& t : tr4) if (increasing(t, 4)) tr.push_back(t);
             vf::explore([&](vf::Chooser& ch) {
@@ -723,19 +724,18 @@ int main(int argc, char** argv) {
                 for (int g = 0; g < 4; ++g) c.ge[g] = ch.dev(3);
                 c.kind[0] = 0; c.kind[1] = 0; c.kind[2] = 2;
                 c.seq = {{0, 0}, {1, 0}};
-                exec("C4_efac_dev3_4groups", c);
-            }, 3, stop);
+                exec("C4_efac_dev2_4groups", c);
+            }, 2, stop);
         }
     }
     if (run.counters["violations_total"] > 300) { run.exhaustive = false; run.cap_note += "stopped after >300 mismatching vectors; "; }
     run.count("model_builds", (long long)g_builds);
     run.rule = std::string("models: 3 wells (fingerprint rates per well x phase x evaluation, sign by kind) in leaf groups of a group forest under FIELD; dimensions: forest (all 16 labelled forests of 3 groups") +
         (run.thorough() ? "; all 125 of 4 groups, depth <= 4" : "") + ") x leaf placement of the wells x WEFAC/GEFAC in {1, ~0.5, ~0.25} distinct per entity x kind {producer WCONHIST, water injector, gas injector WCONINJH} x dynamic status {OPEN, SHUT, STOP} x {METRIC, FIELD, LAB, PVT-M} x 3 start dates x evaluation sequences over {1 d, 10 d, 0.5 d} with ministep flags x {with, without} step-0 evaluation x {constant, changed at report step 2} efficiency factors. " +
-        (run.quick()
-             ? "A: every combination with <= 2 deviations from the default (open producers, efficiency 1, METRIC, one 1 d step) over all 105 forest x placement pairs, sequences of <= 2 evaluations; "
-             : "A: every combination with <= 3 deviations from the same default over all 105 forest x placement pairs, sequences of <= 2 evaluations; ") +
+        "A: every combination with <= 2 deviations from the default (open producers, constant efficiency 1, METRIC, one 1 d step, no step-0 evaluation) over all 105 forest x placement pairs, all 21 sequences of <= 2 evaluations" +
+        (run.thorough() ? ", and every combination with exactly 3 deviations where the sequence is one of {1d; 10d,0.5d; 1d(ministep),10d; 0.5d,1d}; " : "; ") +
         "B: all 129 sequences of <= 3 evaluations x 4 unit systems x step-0 evaluation on 3 fixed rich models" +
-        (run.thorough() ? "; C1: 105 pairs x complete 3^6 efficiency product x 2 kind assignments; C2: 105 pairs x 27 kind x 27 status assignments; C3: 1420 pairs (4 groups) x complete 2^7 efficiency product; C4: 450 pairs (4 groups, increasing forests) x 3-valued efficiency factors on <= 3 entities" : "") +
+        (run.thorough() ? "; C1: 105 pairs x complete 3^6 efficiency product x 2 kind assignments; C2: 105 pairs x 27 kind x 27 status assignments; C3: 1420 pairs (4 groups) x complete 2^7 efficiency product; C4: 450 pairs (4 groups, increasing forests) x 3-valued efficiency factors on <= 2 entities" : "") +
         ". Oracle: after every Summary::eval each of the checked vectors (see notes.vectors_checked) at every well/group/FIELD node equals the harness reference (rel 1e-10). distinct = distinct vectors of all observed values";
     return run.finish();
 }
